@@ -43,6 +43,47 @@ theorem c15_concat {α : Type} (pages : List (PageResp α)) (h : WellFormedChain
   rw [pageLoop_concat pages h 0 []]
   simp
 
+/-- The registry side: any way of splitting the items after `last` into pages.  `sizes` are
+    the sizes the registry chooses page by page (zero included: an empty page that still
+    carries a next link); when it has no more sizes to choose it sends the rest.  Every page
+    but the final one carries a next link. -/
+def servePages {α : Type} : List Nat → List α → List (PageResp α)
+  | [], l => [⟨l, false⟩]
+  | s :: ss, l =>
+    if l.length ≤ s then [⟨l, false⟩]
+    else ⟨l.take s, true⟩ :: servePages ss (l.drop s)
+
+theorem servePages_spec {α : Type} (sizes : List Nat) :
+    ∀ l : List α, WellFormedChain (servePages sizes l) ∧ ((servePages sizes l).map (·.items)).flatten = l := by
+  induction sizes with
+  | nil => intro l; simp [servePages, WellFormedChain]
+  | cons s ss ih =>
+    intro l
+    unfold servePages
+    by_cases h : l.length ≤ s
+    · simp [h, WellFormedChain]
+    · simp only [h, if_false]
+      obtain ⟨h1, h2⟩ := ih (l.drop s)
+      constructor
+      · -- the tail is a non-empty well-formed chain
+        cases hr : servePages ss (l.drop s) with
+        | nil => rw [hr] at h1; exact absurd h1 (by simp [WellFormedChain])
+        | cons q rest => rw [hr] at h1; exact ⟨rfl, h1⟩
+      · simp only [List.map_cons, List.flatten_cons, h2, List.take_append_drop]
+
+/-- **Every item the registry holds after `last` is delivered exactly once, in the
+    registry's order, for any way the registry splits the result into pages**: client loop
+    and registry model composed. -/
+theorem c15_registry_chain_complete {α : Type} (sizes : List Nat) (itemsAfterLast : List α) :
+    (pageLoop none (servePages sizes itemsAfterLast) 0 []).1.flatten = itemsAfterLast ∧
+    (pageLoop none (servePages sizes itemsAfterLast) 0 []).2 = .ok := by
+  obtain ⟨hw, hf⟩ := servePages_spec sizes itemsAfterLast
+  have := c15_concat (servePages sizes itemsAfterLast) hw
+  exact ⟨by rw [this.1, hf], this.2⟩
+
+example : (pageLoop none (servePages [2, 0, 1] [10, 20, 30, 40, 50]) 0 []).1 = [[10, 20], [], [30], [40, 50]] := by
+  decide
+
 /-- **Stops at a failing callback and returns that failure**: nothing after page `k` is
     requested or delivered. -/
 theorem c15_callback_error {α : Type} (pages : List (PageResp α)) (k : Nat) (hk : k < pages.length)
